@@ -79,6 +79,24 @@ Section Counter.
     | (w, n) :: r => if eqb v w then n else count v r
     end.
   Definition occurrences (v : A) (l : list A) : nat := length (filter (fun x => eqb v x) l).
+  (* Counter.update(mapping): the counts of the mapping are ADDED to the counts already held *)
+  Fixpoint counter_add_n (v : A) (n : nat) (c : list (A * nat)) : list (A * nat) :=
+    match c with
+    | [] => [(v, n)]
+    | (w, m) :: r => if eqb v w then (w, (m + n)%nat) :: r else (w, m) :: counter_add_n v n r
+    end.
+  Definition counter_update (c d : list (A * nat)) : list (A * nat) :=
+    fold_left (fun c e => counter_add_n (fst e) (snd e) c) d c.
+  (* for i in range(0, len(l), size): l[i : i + size]   (fuel = len(l) bounds the number of batches) *)
+  Fixpoint batches (fuel size : nat) (l : list A) : list (list A) :=
+    match fuel with
+    | O => []
+    | S f => match l with [] => [] | _ => firstn size l :: batches f size (skipn size l) end
+    end.
+  (* counting in batches: c = Counter(); for each batch: values, counts = np.unique(batch, return_counts=True); c.update(dict(zip(values, counts)));
+     the per-batch dict is the Counter of the batch (np.unique lists it sorted; Counter equality ignores order) *)
+  Definition counter_batched (size : nat) (l : list A) : list (A * nat) :=
+    fold_left (fun c b => counter_update c (counter_of b)) (batches (length l) size l) [].
   (* equality of Counters: same support size and same count for every entry *)
   Definition counter_eqb (a b : list (A * nat)) : bool :=
     Nat.eqb (length a) (length b) && forallb (fun e => Nat.eqb (count (fst e) b) (snd e)) a.
@@ -117,6 +135,8 @@ Definition fold_tuple_bits (sample : list (list Z)) : option (list Z) :=
 (* Result.histogram(key, fold_func=None, fold_base): the vectorised path when the values fit in an int64 *)
 Inductive fold_base := BaseNone | BaseInt (b : Z) | BaseList (bs : list Z).
 Definition int64_max : Z := 9223372036854775807.
+(* _vectorized_histogram(..., batch_size=50000): Result.histogram always uses the default *)
+Definition hist_batch_size : nat := Z.to_nat 50000.
 Definition powers_int (b : Z) (n : nat) : list Z := map (fun i => b ^ Z.of_nat i) (rev (seq 0 n)).
 (* np.hstack((np.cumprod(base_list[:0:-1])[::-1], [1])) : positional weights of a mixed radix *)
 Fixpoint weights_list (bs : list Z) : list Z :=
@@ -140,7 +160,8 @@ Definition histogram (res : result) (key : Z) (fb : fold_base) : option (list (Z
           let fast (w : list Z) : option (list (Z * nat)) :=
             Some (match rows with
                   | [] => []
-                  | _ => if Nat.eqb nq 0 then [(0, length rows)] else counter_of Z.eqb (map (dot w) rows)
+                  | _ => if Nat.eqb nq 0 then [(0, length rows)]
+                         else counter_batched Z.eqb hist_batch_size (map (dot w) rows)
                   end) in
           let slow := multi_hist Z.eqb res [key] (fun e => slow_fold fb (hd [] e)) in
           match fb with
